@@ -11,10 +11,12 @@
    exactly on the final versions s accepts - including the python_full_version zero
    padding (C11_padding: padding the release segment never changes a comparison).
    Outside: `in` / `not in` lists (string containment, known finding pv-in-substring) and
-   the exclusion tilde_safe (known finding tilde-max-post), both decided by the oracle. *)
+   the exclusion tilde_safe (known finding tilde-max-post), both decided by the oracle.
+   C11_link / C11_linked_ops: the bridge model as a merging oracle of the marker theorems (Proofs/MergeLink.v). *)
 From Coq Require Import List Bool NArith.
 From Verif Require Import PyRes Order Cuts Str SpecTypes GenSpec SpecSem SpecExpr Pep440 Corr SpecParse
-  ParseSound RenderSound ParseReach Bridge BridgeSound.
+  ParseSound RenderSound ParseReach Bridge BridgeSound MergeLink.
+From Verif Require Marker MarkerSingle MarkerSound.
 Import ListNotations.
 Import X.
 
@@ -86,6 +88,37 @@ Proof. exact (reversed_sem c v). Qed.
 Theorem C11_padding k v : clause_sem (pad_pfv k) v = clause_sem k v.
 Proof. exact (pad_pfv_sem k v). Qed.
 
+(* The link to the marker theorems (Proofs/MergeLink.v).  For ANY tokeniser tok / printer untok with tok (untok n c) = Some c, the merging
+   oracle vmerge_link - _merge_single_markers as modelled by vmerge_same, declining where the merged specifier is not tilde_safe - satisfies
+   the hypothesis vmerge_sound of C02 / C03 / C07 / C10 / C12 / C14m on the class good_env (environments that decide every tokenisable
+   version atom as packaging's Specifier.contains does, on a final interpreter version); hence & and | computed with it mean the
+   conjunction / disjunction of their operands (link_runs / env0_good in MergeLink.v: the oracle does merge, the class is inhabited). *)
+Section C11link.
+  Variable tok : Marker.atom -> option clause.
+  Variable untok : str -> clause -> Marker.atom.
+  Variable vn : str -> vname.
+  Variable ver : Marker.menv -> str -> version.
+  Hypothesis untok_name : forall n c, Marker.a_name (untok n c) = n.
+  Hypothesis tok_untok : forall n c, tok (untok n c) = Some c.
+
+  Theorem C11_link k a b r : vmerge_link tok untok vn k a b = Some r ->
+    MarkerSingle.wf r = true
+    /\ forall e, good_env tok ver e -> Marker.meval e r = MarkerSingle.bop k (Marker.atom_eval e a) (Marker.atom_eval e b).
+  Proof. exact (vmerge_link_sound tok untok vn ver untok_name tok_untok k a b r). Qed.
+
+  Theorem C11_linked_ops vcontains perm (perm_perm : forall l, Permutation.Permutation (perm l) l) fuel a b r :
+    MarkerSingle.wf a = true -> MarkerSingle.wf b = true ->
+    (Marker.mand (vmerge_link tok untok vn) vcontains perm fuel a b = Ret r ->
+       MarkerSingle.wf r = true /\ forall e, good_env tok ver e -> Marker.meval e r = Marker.meval e a && Marker.meval e b)
+    /\ (Marker.mor (vmerge_link tok untok vn) vcontains perm fuel a b = Ret r ->
+       MarkerSingle.wf r = true /\ forall e, good_env tok ver e -> Marker.meval e r = Marker.meval e a || Marker.meval e b).
+  Proof.
+    intros Wa Wb. split; intros H.
+    - exact (linked_and tok untok vn ver untok_name tok_untok vcontains perm perm_perm fuel a b r H Wa Wb).
+    - exact (linked_or tok untok vn ver untok_name tok_untok vcontains perm perm_perm fuel a b r H Wa Wb).
+  Qed.
+End C11link.
+
 (* non-vacuity: python_full_version >= "3.9a1" : view, and back from the parsed [3.9a1, inf) with the release padded to 3.9.0a1 *)
 Definition k39a1 : clause := mkClause OpGe (mkVer 0 [3; 9]%N (Some (PA, 1%N)) None None).
 Example C11_runs :
@@ -100,5 +133,5 @@ Example C11_pv_runs :
   /\ vmerge_pv true (mkClause OpGt (relver 0 [3; 7]%N)) (mkClause OpGe (relver 0 [3; 8; 5]%N)) = Ret (VMAtom (mkClause OpGe (relver 0 [3; 8; 5]%N))).
 Proof. split; [split; [reflexivity | cbn; auto] | vm_compute; reflexivity]. Qed.
 
-Definition C11_all := (C11_view, C11_back, C11_padding, C11_merge, C11_normalize, C11_merge_pv, C11_reversed).
+Definition C11_all := (C11_view, C11_back, C11_padding, C11_merge, C11_normalize, C11_merge_pv, C11_reversed, C11_link, C11_linked_ops, link_runs, env0_good).
 Redirect "C11.assumptions" Print Assumptions C11_all.
